@@ -1,4 +1,5 @@
 import Cell2v.Lemmas.Service
+import Cell2v.Lemmas.ServiceLive
 /-!
 C01 — a service request completes exactly once: reply, remote error, or timeout.
 
@@ -23,6 +24,14 @@ fewer than `M - 1` allocations since it was stored" (a request lives ≈ 31 s,
 
 The log is newest-first.  `cbCount log i` = number of callback invocations of
 instance `i` (instances number the issues; never reused).
+
+Upper bound: `cb_at_most_once`, `cb_is_right_reply`, `timeout_only_after_deadline`, ….
+Lower bound: `response_completes` (a processed reply does complete), `request_never_lost`
+(registered-or-completed-once at every later moment), `exactly_once_eventually` /
+`exactly_once_despite_panics` (with the expiry scans that fairness of the 1 s timer provides
+written into the op list, the count is exactly 1).  Node-level entry points without a route
+(`Op.noroute`) and `ResponseEx`'s decision (`respondsTo`): last section.  What is excluded by
+assumption — a restart of the actor — has a witness at the end.
 -/
 namespace Cell2v.Props.C01
 open Cell2v.Service
@@ -35,8 +44,9 @@ theorem cb_at_most_once (M n0 : Nat) (ops : List Op)
     cbCount (run (init M n0) ops).log i ≤ 1 :=
   (run_WF ops _ (init_WF M n0) hg).b.cbOnce i
 
-/-- **the right reply**: a completion that is not a timeout and not the
-synchronous serialisation error is added only by `handleResponse` processing a
+/-- **the right reply**: a completion that is not a timeout and not one of the two
+synchronous errors reported by the issuing call itself (serialisation failure, no route:
+`noservice_only_from_noroute`) is added only by `handleResponse` processing a
 response that carries the id under which *this* instance is registered right
 now; it passes the decoded content of that very response; the instance had not
 been completed before (so it is the first response processed for it and no
@@ -45,16 +55,18 @@ theorem cb_is_right_reply (M n0 : Nat) (ops : List Op)
     (hg : (run (init M n0) ops).collided = false) (op : Op) (i id : Nat) (o : Outcome) (t : Nat)
     (hin : Ev.cb i id o t ∈ (step (run (init M n0) ops) op).log)
     (hnew : Ev.cb i id o t ∉ (run (init M n0) ops).log)
-    (h1 : o ≠ .timeout) (h2 : o ≠ .serErr) :
+    (h1 : o ≠ .timeout) (h2 : o ≠ .serErr) (h3 : o ≠ .noService) :
     ∃ p w, op = .response id p ∧ o = decode p ∧ free (run (init M n0) ops) = true ∧
       (id, w) ∈ (run (init M n0) ops).pending ∧ w.inst = i ∧ w.hasCb = true ∧
       t = (run (init M n0) ops).now ∧ cbCount (run (init M n0) ops).log i = 0 ∧
       ∃ t0, Ev.issued i id t0 ∈ (run (init M n0) ops).log := by
   have hwf := run_WF ops _ (init_WF M n0) hg
-  rcases step_new_cb hin hnew with (⟨e, _⟩ | ⟨_, e, _⟩) | ⟨e, _⟩ | ⟨p, w, hop, ho, hfree, hf, hi, hcb, ht⟩
+  rcases step_new_cb hin hnew with (⟨e, _⟩ | ⟨_, e, _⟩) | ⟨e, _⟩ | ⟨p, w, hop, ho, hfree, hf, hi, hcb, ht⟩ | ⟨e, _⟩
   · exact absurd e h1
   · exact absurd e h1
   · exact absurd e h2
+  rotate_left
+  · exact absurd e h3
   · subst hop ho hi ht
     have hm := find_some_mem hf
     obtain ⟨_, hb⟩ := free_iff.1 hfree
@@ -81,11 +93,12 @@ continuing after the previous callback returned), stamped with the current time 
 theorem timeout_only_from_scan (s : State) (op : Op) (i id t : Nat)
     (hin : Ev.cb i id .timeout t ∈ (step s op).log) (hnew : Ev.cb i id .timeout t ∉ s.log) :
     t = s.now ∧ ((∃ order, op = .tick order) ∨ op = .ret) := by
-  rcases step_new_cb hin hnew with (⟨_, e, o, h⟩ | ⟨h, _, e⟩) | ⟨e, _⟩ | ⟨p, w, _, e, _⟩
+  rcases step_new_cb hin hnew with (⟨_, e, o, h⟩ | ⟨h, _, e⟩) | ⟨e, _⟩ | ⟨p, w, _, e, _⟩ | ⟨e, _⟩
   · exact ⟨e, Or.inl ⟨o, h⟩⟩
   · exact ⟨e, Or.inr h⟩
   · cases e
   · exact absurd e.symm (decode_ne_timeout p)
+  · cases e
 
 /-- **late, duplicate, unknown**: a response whose id is not in the table is
 discarded — one "miss" log line, no callback, and the state is otherwise
@@ -156,8 +169,8 @@ theorem armed_while_pending (M n0 : Nat) (ops : List Op) (hg : (run (init M n0) 
     (run (init M n0) ops).pending ≠ [] → (run (init M n0) ops).armed = true :=
   (run_WF ops _ (init_WF M n0) hg).a.armedP
 
-/-- **a scan completes what is due**: in a reachable state at rest with the timer
-armed, take any entry whose deadline has passed.  Run the scan (`tick`, any map
+/-- **a scan completes what is due**: in a reachable state at rest (the timer is then
+armed: `armed_while_pending`, no hypothesis needed), take any entry whose deadline has passed.  Run the scan (`tick`, any map
 order) and then anything at all in which no callback panics (`more`: whatever the
 callbacks do and return).  As soon as the goroutine is at rest again, that entry's
 callback has been invoked with the timeout (no callback: nothing to call), the
@@ -165,7 +178,7 @@ entry has been removed and is gone.  With `armed_while_pending` and the fairness
 of the 1 s timer (C14 / runtime, assumed) this is the lower bound of "exactly once". -/
 theorem tick_completes_due (M n0 : Nat) (ops : List Op)
     (hg : (run (init M n0) ops).collided = false)
-    (hfree : free (run (init M n0) ops) = true) (harm : (run (init M n0) ops).armed = true)
+    (hfree : free (run (init M n0) ops) = true)
     (id : Nat) (w : Wait) (hm : (id, w) ∈ (run (init M n0) ops).pending)
     (hdue : w.deadline < (run (init M n0) ops).now)
     (order : List Nat) (more : List Op) (hnp : ∀ op, op ∈ more → op ≠ .panic)
@@ -175,6 +188,7 @@ theorem tick_completes_due (M n0 : Nat) (ops : List Op)
     Ev.done w.inst id ∈ (run (init M n0) (ops ++ .tick order :: more)).log ∧
     ∀ id' w', (id', w') ∈ (run (init M n0) (ops ++ .tick order :: more)).pending → w'.inst ≠ w.inst := by
   have hwf := run_WF ops _ (init_WF M n0) hg
+  have harm : (run (init M n0) ops).armed = true := hwf.a.armedP (by intro e; rw [e] at hm; cases hm)
   rw [run_append, run_cons] at hg' hrest ⊢
   have hc1 := not_collided_of_run hg'
   have hp := tick_progress hwf hfree harm hm hdue order hc1
@@ -188,6 +202,20 @@ theorem tick_completes_due (M n0 : Nat) (ops : List Op)
     exact hwf2.d.notDone id' w' hm' id (e ▸ hh.2)
   · rw [hb] at hb'; cases hb'
 
+/-- **the timer is left behind no longer than one period**: the first scan that starts at a free
+moment and finds the table empty cancels the timer (nothing else changes), and the next request
+that is sent arms it again — so "armed" is not a residue either (`armed_while_pending` is the
+other direction). -/
+theorem idle_scan_frees_timer (s : State) (hfree : free s = true) (harm : s.armed = true) (hemp : s.pending = [])
+    (order : List Nat) (hasCb : Bool) :
+    step s (.tick order) = { s with armed := false, log := .freed :: s.log } ∧
+    (step (step s (.tick order)) (.issue true true hasCb)).armed = true := by
+  have h1 : step s (.tick order) = { s with armed := false, log := .freed :: s.log } := by
+    simp [step, tick, hfree, harm, hemp]
+  refine ⟨h1, ?_⟩
+  rw [h1]
+  cases hasCb <;> simp [step, issue]
+
 /-- **a panicking timeout callback** (recovered by the timer manager) aborts the
 scan: nothing else changes — in particular the ids the scan had not reached yet
 stay in the table with their (passed) deadlines and the timer stays armed, so the
@@ -199,13 +227,15 @@ theorem panic_aborts_scan_only (s : State) (i : Nat) (rest : List Nat) (hb : s.b
   simp [step, panicScan, hb, free]
 
 /-- … and every scan that finds something due removes at least one entry before any
-callback can panic, so `k` overdue entries are gone after at most `k` scans. -/
+callback can panic, so `k` overdue entries are gone after at most `k` scans (as a theorem over
+whole histories, with the requests issued in between accounted for: `exactly_once_despite_panics`). -/
 theorem scan_removes_one (M n0 : Nat) (ops : List Op) (hg : (run (init M n0) ops).collided = false)
-    (hfree : free (run (init M n0) ops) = true) (harm : (run (init M n0) ops).armed = true)
+    (hfree : free (run (init M n0) ops) = true)
     (id : Nat) (w : Wait) (hm : (id, w) ∈ (run (init M n0) ops).pending)
     (hdue : w.deadline < (run (init M n0) ops).now) (order : List Nat) :
     (step (run (init M n0) ops) (.tick order)).pending.length < (run (init M n0) ops).pending.length := by
   have hwf := run_WF ops _ (init_WF M n0) hg
+  have harm : (run (init M n0) ops).armed = true := hwf.a.armedP (by intro e; rw [e] at hm; cases hm)
   obtain ⟨_, hb⟩ := free_iff.1 hfree
   have h0 := hwf.idle hb
   have hne : (run (init M n0) ops).pending.isEmpty = false := by
@@ -246,6 +276,262 @@ theorem id_guard_by_counting (M n0 : Nat) (hM : 1 ≤ M) (ops : List Op)
   have := Qe.fresh h1 (by rw [h2']; exact hM) (by intro id w hm; rw [h2']; exact hfew id w hm)
   simp only [GuardOk, guardOkB, Bool.not_eq_eq_eq_not, Bool.not_true]
   exact hasKey_false.2 this
+
+/-! ### the lower bound: a request is never lost, and is completed -/
+
+/-- **a reply completes** (lower bound for replies): when `handleResponse` processes — at a
+moment the goroutine is free, as every mailbox message is — a response whose id is
+registered with a callback, that callback IS invoked, with the decoded content of this
+response, stamped now; it is then that instance's one and only invocation, the entry is
+gone and nothing else in the table is touched. -/
+theorem response_completes (M n0 : Nat) (ops : List Op)
+    (hg : (run (init M n0) ops).collided = false) (hfree : free (run (init M n0) ops) = true)
+    (id : Nat) (w : Wait) (hm : (id, w) ∈ (run (init M n0) ops).pending) (hcb : w.hasCb = true) (p : Payload) :
+    Ev.cb w.inst id (decode p) (run (init M n0) ops).now ∈ (step (run (init M n0) ops) (.response id p)).log ∧
+    cbCount (step (run (init M n0) ops) (.response id p)).log w.inst = 1 ∧
+    (step (run (init M n0) ops) (.response id p)).pending = del id (run (init M n0) ops).pending ∧
+    (∀ id' w', (id', w') ∈ (step (run (init M n0) ops) (.response id p)).pending → w'.inst ≠ w.inst) ∧
+    (step (run (init M n0) ops) (.response id p)).collided = false := by
+  have hwf := run_WF ops _ (init_WF M n0) hg
+  have hf := find_some_of_mem hwf.a.nodup hm
+  have hcol : (step (run (init M n0) ops) (.response id p)).collided = false := by
+    simp only [step]; rw [response_cb hfree hf hcb]; exact hg
+  have hwf' := step_WF hwf (.response id p) hcol
+  have hin : Ev.cb w.inst id (decode p) (run (init M n0) ops).now ∈ (step (run (init M n0) ops) (.response id p)).log := by
+    simp only [step]; rw [response_cb hfree hf hcb]; exact List.mem_cons_self ..
+  have h1 := cb_mem_count hin
+  have h2 := hwf'.b.cbOnce w.inst
+  refine ⟨hin, by omega, ?_, ?_, hcol⟩
+  · simp only [step]; rw [response_cb hfree hf hcb]
+  · intro id' w' hm' e
+    have := hwf'.b.cbPend id' w' hm'
+    rw [e] at this; omega
+
+/-- … for ever: at every later moment of every continuation that reply stays the instance's one and only completion -/
+theorem reply_completes_for_ever (M n0 : Nat) (ops : List Op) (hfree : free (run (init M n0) ops) = true)
+    (id : Nat) (w : Wait) (hm : (id, w) ∈ (run (init M n0) ops).pending) (hcb : w.hasCb = true) (p : Payload)
+    (more : List Op) (hg : (run (init M n0) (ops ++ .response id p :: more)).collided = false) :
+    Ev.cb w.inst id (decode p) (run (init M n0) ops).now ∈ (run (init M n0) (ops ++ .response id p :: more)).log ∧
+    cbCount (run (init M n0) (ops ++ .response id p :: more)).log w.inst = 1 := by
+  rw [run_append, run_cons] at hg ⊢
+  have hc1 := not_collided_of_run hg
+  have hc0 : (run (init M n0) ops).collided = false := by
+    cases h : (run (init M n0) ops).collided with
+    | false => rfl
+    | true => have := step_collided (.response id p) h; rw [this] at hc1; cases hc1
+  obtain ⟨h1, h2, _⟩ := response_completes M n0 ops hc0 hfree id w hm hcb p
+  have hwf1 := step_WF (run_WF ops _ (init_WF M n0) hc0) (.response id p) hc1
+  exact ⟨run_log_mono more _ _ h1, run_count_one more _ _ hwf1 hg h2⟩
+
+/-- **an undecodable reply completes, too** (the repaired D22): a response with success code
+whose type name nobody registered — `remote.Deserialize` panics on it, `deserializeReply`
+recovers — completes the request it answers exactly once, with the decode error, and removes
+the entry, like every other response; the requester goes on (its state is the one of
+`response_completes`, no crash, no restart). -/
+theorem undecodable_reply_completes (M n0 : Nat) (ops : List Op)
+    (hg : (run (init M n0) ops).collided = false) (hfree : free (run (init M n0) ops) = true)
+    (id : Nat) (w : Wait) (hm : (id, w) ∈ (run (init M n0) ops).pending) (hcb : w.hasCb = true) :
+    Ev.cb w.inst id .decodeErr (run (init M n0) ops).now ∈ (step (run (init M n0) ops) (.response id .badType)).log ∧
+    cbCount (step (run (init M n0) ops) (.response id .badType)).log w.inst = 1 ∧
+    (step (run (init M n0) ops) (.response id .badType)).pending = del id (run (init M n0) ops).pending ∧
+    (∀ id' w', (id', w') ∈ (step (run (init M n0) ops) (.response id .badType)).pending → w'.inst ≠ w.inst) := by
+  obtain ⟨h1, h2, h3, h4, _⟩ := response_completes M n0 ops hg hfree id w hm hcb .badType
+  exact ⟨h1, h2, h3, h4⟩
+
+/-- **never lost**: from the moment `doRequestEx` has been called for a request with a
+callback (instance number = the issue counter at that moment, at time `t0`), at every later
+moment of every continuation — whatever is issued, answered, scanned, whatever callbacks do,
+return or panic — that request is either still registered, with its callback and the
+deadline `t0 + 30000`, or its callback has been invoked exactly once.  (Unserialisable
+message: invoked once before `doRequestEx` returns.)  There is no third state: the model
+never forgets a request silently. -/
+theorem request_never_lost (M n0 : Nat) (ops : List Op) (serOk : Bool) (more : List Op)
+    (hg : (run (init M n0) (ops ++ .issue true serOk true :: more)).collided = false) :
+    (∃ id w, (id, w) ∈ (run (init M n0) (ops ++ .issue true serOk true :: more)).pending ∧
+        w.inst = (run (init M n0) ops).ninst ∧ w.hasCb = true ∧
+        w.deadline = (run (init M n0) ops).now + reqTimeout) ∨
+    cbCount (run (init M n0) (ops ++ .issue true serOk true :: more)).log (run (init M n0) ops).ninst = 1 := by
+  rw [run_append, run_cons] at hg ⊢
+  have hc1 := not_collided_of_run hg
+  have hc0 : (run (init M n0) ops).collided = false := by
+    cases h : (run (init M n0) ops).collided with
+    | false => rfl
+    | true => have := step_collided (.issue true serOk true) h; rw [this] at hc1; cases hc1
+  have hwf := run_WF ops _ (init_WF M n0) hc0
+  have hwf1 := step_WF hwf (.issue true serOk true) hc1
+  apply run_Live more _ _ _ hwf1 hg
+  cases serOk with
+  | true => exact issue_Live hc1
+  | false => exact Or.inr (issue_fail_count hwf hc1)
+
+/-- **exactly once, eventually** — the full lower bound under an explicit fairness hypothesis
+on the op list: a request with a callback is issued; later, at a moment the goroutine is free
+and the clock is past the deadline, the expiry timer fires once (`tick`, any map order —
+that it does fire is `armed_while_pending` + the fairness of the 1 s timer, C14); no callback
+panics afterwards; then, as soon as the goroutine is at rest again, the callback of that
+request has been invoked EXACTLY once — by the reply, the remote error, the serialisation
+error or the timeout, whichever history `mid` / `more` chose. -/
+theorem exactly_once_eventually (M n0 : Nat) (ops : List Op) (serOk : Bool) (mid : List Op)
+    (order : List Nat) (more : List Op)
+    (hfree : free (run (init M n0) (ops ++ .issue true serOk true :: mid)) = true)
+    (hlate : (run (init M n0) ops).now + reqTimeout < (run (init M n0) (ops ++ .issue true serOk true :: mid)).now)
+    (hnp : ∀ op, op ∈ more → op ≠ .panic)
+    (hg' : (run (init M n0) ((ops ++ .issue true serOk true :: mid) ++ .tick order :: more)).collided = false)
+    (hrest : free (run (init M n0) ((ops ++ .issue true serOk true :: mid) ++ .tick order :: more)) = true) :
+    cbCount (run (init M n0) ((ops ++ .issue true serOk true :: mid) ++ .tick order :: more)).log
+      (run (init M n0) ops).ninst = 1 := by
+  have hg1 : (run (init M n0) (ops ++ .issue true serOk true :: mid)).collided = false := by
+    rw [run_append] at hg'; exact not_collided_of_run hg'
+  have hwf1 := run_WF _ _ (init_WF M n0) hg1
+  rcases request_never_lost M n0 ops serOk mid hg1 with ⟨id, w, hm, hi, hcb, hd⟩ | h1
+  · obtain ⟨hcbEv, _, _⟩ := tick_completes_due M n0 _ hg1 hfree id w hm (by omega) order more hnp hg' hrest
+    obtain ⟨t, ht⟩ := hcbEv hcb
+    have h1 := cb_mem_count ht
+    have h2 := (run_WF _ _ (init_WF M n0) hg').b.cbOnce w.inst
+    rw [← hi]; omega
+  · rw [run_append] at hg' ⊢
+    exact run_count_one _ _ _ hwf1 hg' h1
+
+/-- **exactly once, eventually — callbacks may panic**: no hypothesis on what the callbacks do
+(`more` may contain `panic`s, recovered by the timer manager, each aborting a scan) and none
+on where the history stops.  Fairness is a count: once the deadline has passed, more expiry
+scans start at moments the goroutine is free (`freeScans`) than there were entries in the
+table plus requests issued since (`reqIssues`) — every such scan removes at least one entry
+before any callback can run (`scan_removes_one`), so the overdue request cannot survive them.
+Then its callback has been invoked EXACTLY once. -/
+theorem exactly_once_despite_panics (M n0 : Nat) (ops : List Op) (serOk : Bool) (mid more : List Op)
+    (hlate : (run (init M n0) ops).now + reqTimeout < (run (init M n0) (ops ++ .issue true serOk true :: mid)).now)
+    (hg' : (run (init M n0) ((ops ++ .issue true serOk true :: mid) ++ more)).collided = false)
+    (hscans : (run (init M n0) (ops ++ .issue true serOk true :: mid)).pending.length + reqIssues more <
+        freeScans (run (init M n0) (ops ++ .issue true serOk true :: mid)) more) :
+    cbCount (run (init M n0) ((ops ++ .issue true serOk true :: mid) ++ more)).log (run (init M n0) ops).ninst = 1 := by
+  have hg1 : (run (init M n0) (ops ++ .issue true serOk true :: mid)).collided = false := by
+    rw [run_append] at hg'; exact not_collided_of_run hg'
+  have hwf1 := run_WF _ _ (init_WF M n0) hg1
+  have hl : Live (run (init M n0) (ops ++ .issue true serOk true :: mid)) (run (init M n0) ops).ninst
+      ((run (init M n0) ops).now + reqTimeout) := request_never_lost M n0 ops serOk mid hg1
+  rw [run_append] at hg' ⊢
+  rcases run_scans more _ _ _ hwf1 hg' hl hlate with h | h
+  · exact h
+  · omega
+
+/-- its hypotheses are satisfiable with a panic in the history: two requests overdue, the scan
+takes instance 0 first, its callback panics, the next scan completes instance 1 -/
+example : (run (init 100 0) [.issue true true true]).now + reqTimeout <
+      (run (init 100 0) ([.issue true true true] ++ .issue true true true :: [.advance 30001])).now ∧
+    (run (init 100 0) (([.issue true true true] ++ .issue true true true :: [.advance 30001]) ++
+      [.tick [1], .panic, .tick [], .ret, .tick []])).collided = false ∧
+    (run (init 100 0) ([.issue true true true] ++ .issue true true true :: [.advance 30001])).pending.length +
+      reqIssues [.tick [1], .panic, .tick [], .ret, .tick []] <
+      freeScans (run (init 100 0) ([.issue true true true] ++ .issue true true true :: [.advance 30001]))
+        [.tick [1], .panic, .tick [], .ret, .tick []] := by decide
+
+/-- hypotheses of `exactly_once_eventually` / `response_completes` are satisfiable (a silent peer; a replying one) -/
+example : free (run (init 100 0) ([] ++ .issue true true true :: [.advance 30001])) = true ∧
+    (run (init 100 0) []).now + reqTimeout < (run (init 100 0) ([] ++ .issue true true true :: [.advance 30001])).now ∧
+    (run (init 100 0) (([] ++ .issue true true true :: [.advance 30001]) ++ .tick [] :: [.ret])).collided = false ∧
+    free (run (init 100 0) (([] ++ .issue true true true :: [.advance 30001]) ++ .tick [] :: [.ret])) = true ∧
+    (run (init 100 0) (([] ++ .issue true true true :: [.advance 30001]) ++ .tick [] :: [.ret])).log.reverse =
+      [.issued 0 1 0, .sent 0 1, .armed, .done 0 1, .cb 0 1 .timeout 30001] := by decide
+example : free (run (init 100 0) [.issue true true true]) = true ∧
+    (keys (run (init 100 0) [.issue true true true]).pending) = [1] ∧
+    (step (run (init 100 0) [.issue true true true]) (.response 1 (.err 9))).log.reverse =
+      [.issued 0 1 0, .sent 0 1, .armed, .done 0 1, .cb 0 1 (.remoteErr 9) 0] := by decide
+
+/-! ### the node-level entry points (`node/app/serviceutils.go`) and the answering side -/
+
+/-- **no route**: `app.Request` whose route finds no target (likewise `QuerySession` / `Kick`
+towards an unknown front) completes its callback at once, exactly once, with `ErrorNoService`
+— and nothing reaches the request core: no id is allocated, nothing is stored, sent or armed.
+(With a target the call is `RequestEx`, i.e. `Op.issue`: all theorems above.) -/
+theorem noroute_completes_once (M n0 : Nat) (ops : List Op) (hg : (run (init M n0) ops).collided = false) :
+    Ev.cb (run (init M n0) ops).ninst 0 .noService (run (init M n0) ops).now ∈
+      (step (run (init M n0) ops) (.noroute true true)).log ∧
+    cbCount (step (run (init M n0) ops) (.noroute true true)).log (run (init M n0) ops).ninst = 1 ∧
+    (step (run (init M n0) ops) (.noroute true true)).pending = (run (init M n0) ops).pending ∧
+    (step (run (init M n0) ops) (.noroute true true)).armed = (run (init M n0) ops).armed ∧
+    (step (run (init M n0) ops) (.noroute true true)).nextId = (run (init M n0) ops).nextId ∧
+    (∀ i id, Ev.sent i id ∈ (step (run (init M n0) ops) (.noroute true true)).log → Ev.sent i id ∈ (run (init M n0) ops).log) := by
+  have hwf := run_WF ops _ (init_WF M n0) hg
+  have hwf' := step_WF hwf (.noroute true true) (by simp only [step]; rw [noroute_collided]; exact hg)
+  have hin : Ev.cb (run (init M n0) ops).ninst 0 .noService (run (init M n0) ops).now ∈
+      (step (run (init M n0) ops) (.noroute true true)).log := by
+    simp only [step]; rw [noroute_cb]; exact List.mem_cons_self ..
+  have h1 := cb_mem_count hin
+  have h2 := hwf'.b.cbOnce (run (init M n0) ops).ninst
+  refine ⟨hin, by omega, rfl, rfl, rfl, ?_⟩
+  intro i id h
+  simp only [step] at h; rw [noroute_cb] at h
+  simpa using h
+
+/-- … and that stays its only invocation for ever: at every later moment of every continuation -/
+theorem noroute_once_for_ever (M n0 : Nat) (ops more : List Op)
+    (hg : (run (init M n0) (ops ++ .noroute true true :: more)).collided = false) :
+    cbCount (run (init M n0) (ops ++ .noroute true true :: more)).log (run (init M n0) ops).ninst = 1 := by
+  rw [run_append, run_cons] at hg ⊢
+  have hc1 := not_collided_of_run hg
+  have hc0 : (run (init M n0) ops).collided = false := by
+    simp only [step] at hc1; rw [noroute_collided] at hc1; exact hc1
+  have hwf1 := step_WF (run_WF ops _ (init_WF M n0) hc0) (.noroute true true) hc1
+  exact run_count_one more _ _ hwf1 hg (noroute_completes_once M n0 ops hc0).2.1
+
+/-- a `ErrorNoService` completion is added only by such a call, for the instance the call creates, stamped now -/
+theorem noservice_only_from_noroute (s : State) (op : Op) (i id t : Nat)
+    (hin : Ev.cb i id .noService t ∈ (step s op).log) (hnew : Ev.cb i id .noService t ∉ s.log) :
+    op = .noroute true true ∧ i = s.ninst ∧ id = 0 ∧ t = s.now := by
+  rcases step_new_cb hin hnew with (⟨e, _⟩ | ⟨_, e, _⟩) | ⟨e, _⟩ | ⟨p, w, _, e, _⟩ | ⟨_, e1, e2, e3, e4⟩
+  · cases e
+  · cases e
+  · cases e
+  · cases p <;> cases e
+  · exact ⟨e4, e1, e2, e3⟩
+
+/-- an unroutable `app.Notify`, and an unroutable `app.Request` without callback, do nothing at all -/
+theorem noroute_never_registers (s : State) (isReq hasCb : Bool) :
+    (step s (.noroute isReq hasCb)).pending = s.pending ∧
+    (step s (.noroute isReq hasCb)).armed = s.armed ∧
+    (step s (.noroute isReq hasCb)).nextId = s.nextId ∧
+    ((isReq && hasCb) = false → (step s (.noroute isReq hasCb)).log = s.log) := by
+  simp only [step]
+  refine ⟨noroute_pending s _ _, ?_, ?_, ?_⟩
+  · unfold noroute; split <;> rfl
+  · unfold noroute; split <;> rfl
+  · intro h; rw [noroute_nocb s _ _ h]
+
+/-- **the answering side** (`ResponseEx`): a response is produced exactly for messages that carry a
+request id and a sender; every id `AllocReqId` hands out is such an id (never the notification
+id 0), whatever the allocator state and the wrap bound — so a request is always answerable and a
+notification never answered. -/
+theorem responds_exactly_to_requests (M n : Nat) (hM : 1 ≤ M) (hasSender : Bool) :
+    respondsTo (allocId M n) hasSender = hasSender ∧ respondsTo 0 hasSender = false ∧
+    ∀ id, respondsTo id false = false := by
+  have := (allocId_range (n := n) hM).1
+  refine ⟨?_, ?_, ?_⟩
+  · have hne : allocId M n ≠ 0 := by omega
+    simp [respondsTo, hne]
+  · simp [respondsTo]
+  · intro id; simp [respondsTo]
+
+example : (run (init 100 0) [.issue true true true, .noroute true true, .ret, .noroute false false, .noroute true false]).log.reverse =
+    [.issued 0 1 0, .sent 0 1, .armed, .issued 1 0 0, .done 1 0, .cb 1 0 .noService 0] ∧
+    free (run (init 100 0) [.issue true true true, .noroute true true, .ret, .noroute false false, .noroute true false]) = true := by decide
+
+/-! ### outside the id guard: a restart of the actor (reproduced on the Go code, see `assumptions`)
+
+The theorems above are about ONE incarnation of the service (`init`).  When the actor is
+restarted by its supervisor (a user callback panicking under `handleResponse`; before the D22
+repair also protoactor's `Deserialize` on an unknown type name) the producer builds a new
+`Service`: empty table, allocator at 0 — a second `init` on the same wire.  The counting
+argument behind the id guard is per incarnation and does not exclude what follows. -/
+
+/-- the old incarnation has request instance 0 outstanding under id 1; the new incarnation
+allocates id 1 again for its own first request, and the peer's reply to the OLD request
+completes the NEW one — with no id wrap and the `collided` flag down. -/
+theorem restart_id_reuse_witness :
+    keys (run (init 2147483632 0) [.issue true true true]).pending = [1] ∧
+    (run (init 2147483632 0) [.issue true true true, .response 1 (.ok (some 5))]).log.head? =
+      some (.cb 0 1 (.reply (some 5)) 0) ∧
+    (run (init 2147483632 0) [.issue true true true, .response 1 (.ok (some 5))]).collided = false := by decide
 
 /-! ### non-vacuity: a concrete history with three outstanding requests, a reply,
 a duplicate of it, an error reply, an expiry, a late reply; the hypotheses of the
@@ -293,6 +579,22 @@ theorem d10_witness :
 theorem d10_fixed :
     (issue (init 2147483632 0) true false true).pending = [] ∧
     cbCount (issue (init 2147483632 0) true false true).log 0 = 1 := by decide
+
+/-! ### D22 (repaired): the previous `handleResponse` let `remote.Deserialize` panic -/
+
+/-- a reply with an unregistered type name for the outstanding request: the callback was not
+invoked and the entry stayed registered in an incarnation that was then replaced (actor
+restart) — never completed by its reply; `response_completes` failed on
+`[issue request, response 1 badType]` -/
+theorem d22_witness :
+    cbCount (responseD22 (issue (init 2147483632 0) true true true) 1 .badType).log 0 = 0 ∧
+    keys (responseD22 (issue (init 2147483632 0) true true true) 1 .badType).pending = [1] := by decide
+
+/-- the repaired code on the same input: one completion, with the decode error, nothing left -/
+theorem d22_fixed :
+    (response (issue (init 2147483632 0) true true true) 1 .badType).log.head? = some (.cb 0 1 .decodeErr 0) ∧
+    cbCount (response (issue (init 2147483632 0) true true true) 1 .badType).log 0 = 1 ∧
+    (response (issue (init 2147483632 0) true true true) 1 .badType).pending = [] := by decide
 
 /-! ### D18 (repaired): the previous `checkExpired` deleted the entry only after the
 callback had returned -/
